@@ -48,7 +48,7 @@ impl ParseInfo {
     fn add_cel(&mut self, frame_id: u16, cel: cel::RawCel<RawPixels>) -> Result<()> {
         let cel_id = CelId {
             frame: frame_id,
-            layer: cel.data.layer_index,
+            layer: cel.data.layer_index as u32,
         };
         // A cel must refer to a layer that has already been defined (layer
         // chunks precede cel chunks). Checking this here also keeps the cel
